@@ -54,6 +54,12 @@ def run(tier):
         runs, bad = vlib.validate_runs(rep, "ReplTrace", "ReplTrace", tr, wd, f"random{c}", dev_cfgs=DEV,
                                        describe=describe, strip=("nodes",))
         os.remove(tr)
+    # hashes far above any per-delta size threshold against a concurrent write of another type; node-level key routing
+    for fam in ("bighash", "nodepair"):
+        tr = os.path.join(wd, fam + ".ndjson")
+        vlib.vh(["repl", fam, "--out", tr])
+        vlib.validate_runs(rep, "ReplTrace", "ReplTrace", tr, wd, fam, dev_cfgs=DEV, describe=describe, strip=("nodes",))
+        os.remove(tr)
     rep.cov["distinct_nontrivial"] = rep.cov["traces_validated_against_impl"]
     rep.cov["rule"] = ("a case is one run of 2-4 real replicated shard actors on one key: client commands at any node, deltas "
                        "delivered in any order, duplicated, delayed past later commands, anti-entropy; every case has >= 1 write")
